@@ -84,9 +84,18 @@ func (p *Conn) reader() {
 			return
 		}
 		buf := make([]byte, n)
-		if _, err := io.ReadFull(p.C, buf); err != nil {
-			p.setErr(err)
-			return
+		// the body is read in chunks so that StallReads also takes effect in the middle of a (large) frame — the
+		// reader is usually already parked in the read of the length prefix when the stall is requested
+		for off := 0; off < len(buf); {
+			for p.stallRead.Load() {
+				time.Sleep(2 * time.Millisecond)
+			}
+			end := min(off+32<<10, len(buf))
+			if _, err := io.ReadFull(p.C, buf[off:end]); err != nil {
+				p.setErr(err)
+				return
+			}
+			off = end
 		}
 		f, _ := ParseFrame(buf)
 		p.mu.Lock()
